@@ -20,7 +20,7 @@ META = {
                     'origins carry explicit file_set_number / creation_time'],
     'technique': ('runtime monitoring + fault injection: flush-tap event log with on-disk snapshots, byte differential across '
                   'the configuration matrix, exception injected at every flush point, recording contracts on '
-                  'ByteWriter.write_bytes and the BufferedOutput invariant (icontract)'),
+                  'ByteWriter.write_bytes and the BufferedOutput invariant (icontract); strace of a child process (open flags of the target, bytes written at every close on record boundaries)'),
 }
 META['required_obs']['thorough'] = META['required_obs']['quick'] + ['default-output-chunk']
 META['env'] = {'thorough': {'VF_RLIMIT_AS_GIB': 14}}      # one case writes with the default 2 x 4 GiB output buffer
